@@ -68,7 +68,8 @@ def run(ctx):
     for c, r in zip(cases, recs):
         ctx.note_case([c["cfg"], c["script"], r["sched"]], nontrivial=any(h["op"] in ("close", "cancel") for h in r["run"]["H"]))
     ctx.samples = [{"case": recs[0]["case"], "run": recs[0]["run"]}]
-    P.validate_traces(ctx, recs)
+    div = P.validate_traces(ctx, recs)
+    P.binding_selftest(ctx, recs, div)
     ctx.tick("trace_validation")
     bad = P.judge_runs(ctx, recs, PREF)
     P.confirm(ctx, cases, recs, bad, PREF, lambda cs: P.run_pipe(ctx, cs, shards=1))
